@@ -43,7 +43,7 @@ CHECKS = {
    note="every edit is followed by set_root_file; hash-ordered result lists are compared sorted; FileIds are normalised to paths",
    technique="stateful property-based testing: history generation with a from-scratch differential oracle"),
  "C16": dict(cat="exploration", design="§5 C16",
-   text="Exhaustive enumeration of every include graph (all edge sets incl. self-loops) over <=3 files (thorough: <=4 files, 65536 graphs, and 800k random graphs of 5-8 files, sparse to dense) x 9 variants (missing includes in every file, INCLUDE_DIR-only target, directory-vs-INCLUDE_DIR choice, doubled include statements, includes nested in let/foreach/if/multiclass blocks, two directories with same-named files, files that declare nothing by name, include statements with a comment before the file name), checked against a reference reachability/resolution model: termination via traversal budget, exact workspace, exact document links, diagnostics only on unresolvable includes, single indexing, references across all includers.",
+   text="Exhaustive enumeration of every include graph (all edge sets incl. self-loops) over <=3 files (thorough: <=4 files, 65536 graphs, and 800k random graphs of 5-8 files, sparse to dense) x 10 variants (missing includes in every file, an include statement with an empty file name, INCLUDE_DIR-only target, directory-vs-INCLUDE_DIR choice, doubled include statements, includes nested in let/foreach/if/multiclass blocks, two directories with same-named files, files that declare nothing by name, include statements with a comment before the file name), checked against a reference reachability/resolution model: termination via traversal budget, exact workspace, exact document links, diagnostics only on unresolvable includes, single indexing, references across all includers.",
    note="traversal-budget hook in collect_sources / Include::index; search order taken from the documentation",
    technique="exhaustive small-scope enumeration of configurations against a reference model"),
  "C20": dict(cat="exploration", design="§5 C20",
